@@ -492,7 +492,7 @@ def run_shard(ctx: Ctx, rec: Recorder) -> None:
                     idx += 1
                     if not ctx.mine(idx):
                         continue
-                    if scheme == "https" and ctx.quick and (idx // ctx.nshards) % 3:
+                    if scheme == "https" and ctx.quick and ctx.skip(idx, 3):
                         continue  # each https case builds a real SSLContext (about 30 ms)
                     url = build_url(scheme, "", host, port, "/p/q", "?x=1", "#f")
                     rec.case(["sys", url, proxy])
@@ -504,12 +504,12 @@ def run_shard(ctx: Ctx, rec: Recorder) -> None:
             for q in QUERIES:
                 for frag in FRAGS:
                     idx += 1
-                    if not ctx.mine(idx) or (ctx.quick and (idx // ctx.nshards) % 2):
+                    if not ctx.mine(idx) or (ctx.quick and ctx.skip(idx, 2)):
                         continue
                     url = build_url("http", ui, "h.test", "", path, q, frag)
                     rec.case(["form", url])
                     judge(rec, url, None)
-                    if (idx // ctx.nshards) % 3 == 0:
+                    if (not ctx.skip(idx, 3)):
                         judge(rec, url, "http://proxy.test:3128")
     # (iii) case / default-port variants
     vi = 0
